@@ -268,11 +268,12 @@ func (m *roaManager) handleRTRMsg(client *roaClient, state *oc.RpkiServerState, 
 			}
 		case *rtr.RTREndOfData:
 			received.EndOfData++
-			if client.sessionID != msg.SessionID {
-				// remove all ROAs related with the
-				// previous session
+			if client.sessionID != msg.SessionID || client.fullReload {
+				// remove all ROAs related with the previous session, or
+				// superseded by the full reload that ends here
 				m.table.DeleteAll(client.host)
 			}
+			client.fullReload = false
 			client.sessionID = msg.SessionID
 			client.serialNumber = msg.SerialNumber
 			client.endOfData = true
@@ -354,6 +355,7 @@ type roaClient struct {
 	timer        *time.Timer
 	lifetime     int64
 	endOfData    bool
+	fullReload   bool
 	pendingROAs  []*table.ROA
 	cancelfnc    context.CancelFunc
 	ctx          context.Context
@@ -387,6 +389,11 @@ func (c *roaClient) enable(serial uint32) error {
 }
 
 func (c *roaClient) softReset() error {
+	// The answer to a Reset Query is the complete database of the cache: whatever is
+	// buffered is obsolete and the next End of Data replaces our copy of its records.
+	c.endOfData = false
+	c.pendingROAs = make([]*table.ROA, 0)
+	c.fullReload = true
 	if c.conn != nil {
 		r := rtr.NewRTRResetQuery()
 		data, _ := r.Serialize()
@@ -395,8 +402,6 @@ func (c *roaClient) softReset() error {
 			return err
 		}
 		c.state.RpkiMessages.RpkiSent.ResetQuery++
-		c.endOfData = false
-		c.pendingROAs = make([]*table.ROA, 0)
 	}
 	return nil
 }
